@@ -14,11 +14,13 @@ CHECK = dict(
             dict(name="agegrid", run="^TestVerifC04AgeGrid$", quick=0, thorough=0),
             dict(name="agerapid", run="^TestVerifC04AgeRapid$", quick=20000, thorough=400000, shards_thorough=4),
             dict(name="history", run="^TestVerifC04History$", quick=3000, thorough=480000, shards_thorough=12),
+            dict(name="realtime", run="^TestVerifC04RealTime$", quick=4, thorough=240, shards_thorough=12),
         ]),
         dict(name="ecscache", dir="internal/ecscache", src="C04/ecscache", runs=[
             dict(name="agegrid", run="^TestVerifC04EcsAgeGrid$", quick=0, thorough=0),
             dict(name="agerapid", run="^TestVerifC04EcsAgeRapid$", quick=20000, thorough=400000, shards_thorough=4),
             dict(name="history", run="^TestVerifC04EcsHistory$", quick=3000, thorough=480000, shards_thorough=12),
+            dict(name="realtime", run="^TestVerifC04EcsRealTime$", quick=4, thorough=240, shards_thorough=12),
         ]),
     ],
 )
